@@ -64,7 +64,7 @@ PROPS = {
         assumptions=["values holding quotes, backslashes or control characters give invalid / false queries: recorded finding"],
     ),
     "C12": dict(
-        proof_modules=["KsVerif.Proofs.C12"],
+        proof_modules=["KsVerif.Proofs.C12", "KsVerif.Proofs.C12Dec"],
         families=["kfl.eval", "kfl.api"],
         rule="kfl.api: Apply and PrepareQuery + Eval against the steps they are made of (ExpandMacros, Parse, Precompute, Eval) on a "
              "sample of the kfl.eval cases, each entry point twice, and time-helper queries prepared twice with the record "
@@ -169,8 +169,9 @@ PROPS = {
              "k table entries, heartbeats; Kafka k requests, k topics, one correlation id k times; HTTP k pipelined messages, "
              "k headers, k cookies, k chunks, k query parameters, HTTP/2 k DATA frames / streams / open streams / header fields / pings), "
              "each measured at k=64 and k=512 (thorough also 256 and 4096): the allocation at the larger size may not exceed twice "
-             "what the smaller run predicts for that many bytes, the wall time not five times that plus a second; HTTP messages with 4000 / 64000 "
-             "distinct header, cookie, query and form-field names are dissected as whole exchanges, so that the item is analysed; the real Dissect "
+             "what the smaller run predicts for that many bytes; wide cases: HTTP messages with 256000 distinct header / cookie names (thorough: also "
+             "query, form-field and response-header names), dissected as whole exchanges so that the item is analysed, against the linear time "
+             "bound (a quadratic number of comparisons allocates nothing and only shows there); the real Dissect "
              "and the later stages run under measurement (TotalAlloc, wall time) and a per-case kill timer; "
              "bound: alloc <= 4096 n + 512 KiB, time <= 2 s + n/100 ms, no panic, returns; redis.raw / amqp.raw: the "
              "models the theorems speak about (packets and array elements <= bytes; AMQP events <= bytes / 4, body bytes "
@@ -287,7 +288,7 @@ PROPS = {
     ),
     "C09": dict(
         proof_modules=["KsVerif.Proofs.C09", "KsVerif.Proofs.C10"],
-        families=["sched.match.redis", "sched.match.http", "sched.match.http10", "sched.match.amqp", "sched.match.kafka", "sched.excl", "http2.conv", "http2.order"],
+        families=["sched.match.redis", "sched.match.http", "sched.match.http10", "sched.match.amqp", "sched.match.kafka", "sched.excl", "http2.conv", "http2.order", "http.conv"],
         rule="http2.conv: pairing by stream id on interleaved HTTP/2 streams with control frames (incl. a graceful GOAWAY) between the "
              "frames of a stream - one item per completed stream, nothing left in the matcher (see C04); "
              "sched.excl: with one half parked AT a yield point inside the matcher's locked region, the other half must block "
